@@ -294,3 +294,41 @@ Proof.
   intros scan Hs vs sch eg HF. rewrite json_writer_wire_proof. unfold json_wire_spec, cut_to.
   now apply json_roundtrip_any_sched_proof.
 Qed.
+
+(* ---------- no buffer for an announced length above the limit ---------- *)
+Lemma msg_bufs_bounded max s : Forall (fun b => b <= N.max 4 max) (msg_bufs max s).
+Proof.
+  unfold msg_bufs. rewrite prefix_len_is_4.
+  destruct (read_n 4 s); try (constructor; [lia|constructor]).
+  cbv zeta. destruct (N.ltb_spec max (be_decode got 0)); repeat constructor; lia.
+Qed.
+
+Lemma no_oversize_buffer_proof : forall max s, Forall (fun b => b <= N.max 4 max) (all_bufs max s).
+Proof.
+  intros max s. unfold all_bufs. generalize (S (length (s_data s))) as fuel. intros fuel. revert s.
+  induction fuel as [|f IH]; intros s; [constructor|].
+  cbn [all_bufs_loop]. apply Forall_app. split; [apply msg_bufs_bounded|].
+  destruct (read_msg max s); try constructor. apply IH.
+Qed.
+
+Lemma bufs_within_proof : forall max s, bufs_within max s = true.
+Proof.
+  intros max s. unfold bufs_within. apply forallb_forall. intros b Hb.
+  pose proof (no_oversize_buffer_proof max s) as H. rewrite Forall_forall in H.
+  apply N.leb_le. now apply H.
+Qed.
+
+(* an oversize announcement: exactly one buffer (the prefix) for that call, whatever the schedule *)
+Lemma oversize_no_body_buffer_proof : forall max size rest sch eg t,
+  max < size -> size < 4294967296 ->
+  msg_bufs max (mk_src (be32 size ++ rest) sch eg t) = [4].
+Proof.
+  intros max size rest sch eg t Hlt Hsz. unfold msg_bufs. rewrite prefix_len_is_4.
+  pose proof (read_n_closed 4 (be32 size ++ rest) sch eg t) as H. unfold loop_post in H.
+  rewrite app_length, be32_length in H.
+  replace (4 <=? N.of_nat (4 + length rest)) with true in H by (symmetry; apply N.leb_le; lia).
+  destruct H as [sch' ->]. cbn [app]. cbv zeta.
+  change (N.to_nat 4) with (length (be32 size)). rewrite firstn_app, Nat.sub_diag, firstn_all. cbn [firstn].
+  rewrite app_nil_r, be_decode_be32 by exact Hsz.
+  now replace (max <? size) with true by (symmetry; apply N.ltb_lt; exact Hlt).
+Qed.
